@@ -420,9 +420,11 @@ class Emitter:
     def e_DeclRefExpr(self, n, cx):
         ref = n["referencedDecl"]
         rid, rk = ref["id"], ref["kind"]
-        if rk in ("ParmVarDecl", "VarDecl"):
+        if rk in ("ParmVarDecl", "VarDecl", "VarTemplateSpecializationDecl"):
             if rid in self.tu.globals and rid not in cx["locals"]:
                 return self.global_ref(rid)
+            if rk == "VarTemplateSpecializationDecl":
+                raise ExtractionError("variable template specialisation %s not indexed" % ref.get("name"))
             name = ref["name"]
             d = self.tu.decl.get(rid)
             t = (d or ref)["type"]
@@ -512,9 +514,35 @@ class Emitter:
             return "0"
         raise ExtractionError("implicit cast kind " + ck)
 
+    def _align_obligation(self, n, e, cx):
+        """a cast that produces a pointer to a type with stricter alignment than its source: the pointer must be aligned
+        (otherwise every access through it is UB).  Emitted as an assertion in front of the statement (C17)."""
+        try:
+            t = self.tstr(n)
+            tb, _, suf = split_type(t)
+            if "*" not in suf or tb in BUILTIN or tb in FNPTR or tb not in self.tu.records:
+                return
+            al = self.record_layout(self.tu.records[tb])[1]
+            if al <= 1:
+                return
+            st = self.tstr(n["inner"][-1])
+            sb, _, ssuf = split_type(st)
+            sal = 1
+            if sb in BUILTIN:
+                sal = BUILTIN[sb][1] if sb != "void" else 1
+            elif sb in self.tu.records:
+                sal = self.record_layout(self.tu.records[sb])[1]
+            if sal >= al:
+                return
+            self.rules["alignment-obligation"] += 1
+            cx.setdefault("pre_stmts", []).append('__CPROVER_assert(__CPROVER_POINTER_OFFSET(%s) %% %d == 0, "alignment: pointer cast to %s (alignment %d) inside a buffer whose base is suitably aligned");' % (e, al, tb, al))
+        except ExtractionError:
+            return
+
     def _explicit_cast(self, n, cx):
         inner = [c for c in n["inner"]]
         e = self.expr(inner[-1], cx)
+        self._align_obligation(n, e, cx)
         return "((%s)(%s))" % (self.ctype(self.tstr(n)), e)
 
     e_CStyleCastExpr = _explicit_cast
@@ -528,6 +556,7 @@ class Emitter:
         t = self.tstr(n)
         if n.get("valueCategory") == "lvalue":
             return "(*(%s *)&(%s))" % (self.ctype(t), e)
+        self._align_obligation(n, e, cx)
         return "((%s)(%s))" % (self.ctype(t), e)
 
     def e_UnaryExprOrTypeTraitExpr(self, n, cx):
@@ -657,6 +686,15 @@ class Emitter:
 
     # ---------------- statements ----------------
     def stmt(self, n, cx, ind):
+        k = n["kind"]
+        if k in ("DeclStmt", "ReturnStmt") or k.endswith("Expr") or k.endswith("Operator"):
+            cx["pre_stmts"] = []
+            body = self._stmt(n, cx, ind)
+            pre = "".join("  " * ind + "/* ghost */ " + p + "\n" for p in cx.pop("pre_stmts", []))
+            return pre + body
+        return self._stmt(n, cx, ind)
+
+    def _stmt(self, n, cx, ind):
         k = n["kind"]
         pad = "  " * ind
         self.rules["node:" + k] += 1
@@ -883,7 +921,7 @@ def inject_ghost(text, rules, qname):
     return "\n".join(lines) + "\n"
 
 
-def build_unit(tu, workdir, bodies, contracts=None, loop_contracts=None, extra_bodies=(), spec_prelude="", defines="", ghost=None):
+def build_unit(tu, workdir, bodies, contracts=None, loop_contracts=None, extra_bodies=(), spec_prelude="", defines="", ghost=None, stubs=None):
     """Emit one C translation unit.
 
     bodies:      qualified names of functions emitted WITH their real bodies
@@ -902,6 +940,16 @@ def build_unit(tu, workdir, bodies, contracts=None, loop_contracts=None, extra_b
         texts.append(t)
     protos = []
     done = {f.cname for f in body_funcs}
+    stub_texts = []
+    for q, body in (stubs or {}).items():
+        # ghost recorder standing in for a callee (listed as a trusted stub in the evidence): same signature, hand-written body
+        sf = tu.func(q)
+        if sf.cname in em.need_funcs:
+            pnames = [p_.get("name", "jpv_arg%d" % i_) for i_, p_ in enumerate(sf.params)]
+            for i_ in range(len(pnames) - 1, -1, -1):
+                body = body.replace("$%d" % i_, pnames[i_])        # positional parameter names
+            stub_texts.append("/* STUB for %s */\n%s\n%s" % (q, em.signature(sf), body))
+            done.add(sf.cname)
     em.called = set(em.need_funcs)          # callees the emitted bodies really call
     for q in contracts:
         f = tu.func(q)
@@ -915,7 +963,7 @@ def build_unit(tu, workdir, bodies, contracts=None, loop_contracts=None, extra_b
     all_protos = [em.signature(f) + ";" for f in body_funcs]
     recs = "\n".join("typedef struct %s %s;" % (c, c) for c in em.need_records) + "\n" + "\n".join(em.record_c(c) for c in em.need_records)
     glob = em.globals_c()
-    src = PRELUDE.replace("#ifndef JPV_MUL", defines + "\n#ifndef JPV_MUL") + "\n" + recs + "\n\n" + spec_prelude + "\n" + glob + "\n\n" + "\n".join(all_protos) + "\n" + "\n".join(protos) + "\n\n" + "\n".join(texts)
+    src = PRELUDE.replace("#ifndef JPV_MUL", defines + "\n#ifndef JPV_MUL") + "\n" + recs + "\n\n" + spec_prelude + "\n" + glob + "\n\n" + "\n".join(all_protos) + "\n" + "\n".join(protos) + "\n\n" + "\n".join(stub_texts) + "\n\n" + "\n".join(texts)
     return src, em
 
 
